@@ -125,8 +125,8 @@ var ErrSameState = fmt.Errorf("file state has not changed")
 //
 // In all cases, the function returns the first error it has encountered.
 func EnsureDirStateGlobs(dir string, globs []string, content map[string]FileState) (changed, removed []string, err error) {
-	// Check syntax before doing anything.
-	if _, index, err := matchAny(globs, "foo"); err != nil {
+	// Check syntax of every pattern before doing anything.
+	if index, err := checkGlobs(globs); err != nil {
 		return nil, nil, fmt.Errorf("internal error: EnsureDirState got invalid pattern %q: %s", globs[index], err)
 	}
 	for baseName := range content {
@@ -165,6 +165,10 @@ func EnsureDirStateGlobs(dir string, globs []string, content map[string]FileStat
 	for _, glob := range globs {
 		m, err := filepath.Glob(filepath.Join(dir, glob))
 		if err != nil {
+			if firstErr != nil {
+				// report the write failure that got us here
+				err = firstErr
+			}
 			sort.Strings(changed)
 			return changed, nil, err
 		}
@@ -190,6 +194,16 @@ func EnsureDirStateGlobs(dir string, globs []string, content map[string]FileStat
 	sort.Strings(changed)
 	sort.Strings(removed)
 	return changed, removed, firstErr
+}
+
+// checkGlobs reports the first pattern that is malformed, if any.
+func checkGlobs(globs []string) (index int, err error) {
+	for index, glob := range globs {
+		if _, err := filepath.Match(glob, "foo"); err != nil {
+			return index, err
+		}
+	}
+	return 0, nil
 }
 
 func matchAny(globs []string, path string) (ok bool, index int, err error) {
